@@ -1,7 +1,10 @@
 """Write seeded/<id>/meta.json from the patch, the confirmation logs and the sweep results."""
 import json, os, re, glob
 ROOT = '/verif/seeded'
-INITIAL_MISS = {'C12-10': 'the copy-on-update contract of _update_from_other existed under C01 only; the bounded C12 checks append to members that are non-empty at copy time',
+INITIAL_MISS = {'C03-5': 'the parent-version contract (copy appended to the result) was registered under C02 and C04 only',
+                'C05-8': 'the reader of element lists (SubElementListProperty.get_py_value_from_node) was not under contract and no bounded instance holds a list that mixes derived types; first reported as undecided (list comprehension over a symbolic list was not modelled)',
+                'C09-6': 'execute_operation was only a callee summary (may return or raise) of the sco contracts; nothing stated that it lets the handler exception through',
+                'C12-10': 'the copy-on-update contract of _update_from_other existed under C01 only; the bounded C12 checks append to members that are non-empty at copy time',
                 'C19-10': 'the contract called _mk_soap_client with the parameters it had; a new optional parameter (default None) kept the old behaviour for that call. The engine now binds parameters added after the baseline to arbitrary values (also catches C19-5 deductively)',
                 'C14-8': 'reported as undecided (exit 2): the new optional parameter was compared with <, which the engine did not model for values of unknown kind',
                 'C16-10': 'the chain from the associated location state to the published scope was bounded (C16.published_chain builds every state from scratch); update_from_sdc_location on a state that already carries a location was not under contract',
